@@ -224,18 +224,98 @@ def flatten_universe(vals, depth=3):
 
 
 class OldCollector(ast.NodeTransformer):
-    """replace old(<expr>) by __old[<i>] and remember <expr>"""
+    """replace old(<expr>) by __old[<i>] (no bound variables inside: evaluated eagerly before the call) or by
+    __oldeval(<i>, {bound names}) (expression mentions variables bound by an enclosing lambda / comprehension: evaluated
+    lazily against a snapshot of the pre-state namespace)"""
 
     def __init__(self):
-        self.exprs = []
+        self.exprs = []      # (expr node, lazy?)
+        self.scope = []
+
+    def _bound(self):
+        out = set()
+        for s in self.scope:
+            out |= s
+        return out
+
+    def visit_Lambda(self, node):
+        self.scope.append({a.arg for a in node.args.args})
+        self.generic_visit(node)
+        self.scope.pop()
+        return node
+
+    def _comp(self, node):
+        names = set()
+        for g in node.generators:
+            for n in ast.walk(g.target):
+                if isinstance(n, ast.Name):
+                    names.add(n.id)
+        self.scope.append(names)
+        self.generic_visit(node)
+        self.scope.pop()
+        return node
+
+    visit_GeneratorExp = visit_ListComp = visit_SetComp = visit_DictComp = _comp
 
     def visit_Call(self, node):
         if isinstance(node.func, ast.Name) and node.func.id == "old" and len(node.args) == 1:
-            self.exprs.append(node.args[0])
-            new = ast.Subscript(value=ast.Name(id="__old", ctx=ast.Load()), slice=ast.Constant(len(self.exprs) - 1), ctx=ast.Load())
+            e = node.args[0]
+            used = {n.id for n in ast.walk(e) if isinstance(n, ast.Name)} & self._bound()
+            idx = len(self.exprs)
+            self.exprs.append((e, bool(used)))
+            if used:
+                new = ast.Call(func=ast.Name(id="__oldeval", ctx=ast.Load()),
+                               args=[ast.Constant(idx), ast.Dict(keys=[ast.Constant(n) for n in sorted(used)],
+                                                               values=[ast.Name(id=n, ctx=ast.Load()) for n in sorted(used)])], keywords=[])
+            else:
+                new = ast.Subscript(value=ast.Name(id="__old", ctx=ast.Load()), slice=ast.Constant(idx), ctx=ast.Load())
             return ast.copy_location(new, node)
         self.generic_visit(node)
+        # lazy evaluation of the logical connectives (the symbolic side is total; Python would raise on e.g. None.attr)
+        if isinstance(node.func, ast.Name) and node.func.id == "implies" and len(node.args) == 2:
+            return ast.copy_location(ast.BoolOp(op=ast.Or(), values=[ast.UnaryOp(op=ast.Not(), operand=node.args[0]), node.args[1]]), node)
+        if isinstance(node.func, ast.Name) and node.func.id == "ite" and len(node.args) == 3:
+            return ast.copy_location(ast.IfExp(test=node.args[0], body=node.args[1], orelse=node.args[2]), node)
         return node
+
+
+class SnapObj:
+    """attribute snapshot of an object (one level of containers copied)"""
+
+    def __init__(self, obj, depth):
+        names = list(getattr(obj, "__dict__", {}).keys())
+        for klass in type(obj).__mro__:
+            sl = getattr(klass, "__slots__", ())
+            names += [sl] if isinstance(sl, str) else list(sl)
+        for n in names:
+            try:
+                object.__setattr__(self, n, snap_deep(getattr(obj, n), depth - 1))
+            except AttributeError:
+                pass
+        object.__setattr__(self, "_snap_of", obj)
+
+
+def snap_deep(x, depth=2):
+    import collections
+    if isinstance(x, (str, bytes, int, float, bool, type(None), tuple, frozenset, type)) or callable(x) and not hasattr(x, "__dict__"):
+        return x
+    if isinstance(x, (list, dict, set, collections.deque)) and type(x) in (list, dict, set, collections.deque):
+        return x.copy()
+    if hasattr(x, "copy") and isinstance(x, (list, dict, set)):
+        try:
+            return x.copy()
+        except Exception:
+            pass
+    if type(x).__name__ in ("IdentitySet", "OrderedSet", "immutabledict"):
+        return x.copy() if hasattr(x, "copy") else x
+    if depth <= 0 or isinstance(x, types.FunctionType) or isinstance(x, types.MethodType):
+        return x
+    if hasattr(x, "__dict__") or hasattr(type(x), "__slots__"):
+        try:
+            return SnapObj(x, depth)
+        except Exception:
+            return x
+    return x
 
 
 def snap(x):
@@ -262,7 +342,7 @@ def _compile(expr):
     tree = ast.parse(expr, mode="eval")
     coll = OldCollector()
     tree = ast.fix_missing_locations(coll.visit(tree))
-    olds = [compile(ast.fix_missing_locations(ast.Expression(e)), "<old>", "eval") for e in coll.exprs]
+    olds = [(compile(ast.fix_missing_locations(ast.Expression(e)), "<old>", "eval"), lazy) for e, lazy in coll.exprs]
     return compile(tree, "<contract>", "eval"), olds
 
 
@@ -297,9 +377,20 @@ def run_contract(contract, fn, bindings, args=None, kwargs=None, consts=None, se
         code, _ = _compile(cond)
         may[exc_name] = bool(eval(code, ns))
     compiled = []
+    ns_old = None
     for i, cl in enumerate(list(contract.ensures) + list(contract.c_ensures)):
         code, olds = _compile(cl)
-        compiled.append((i, cl, code, [snap(eval(oc, ns)) for oc in olds]))
+        vals = []
+        for oc, lazy in olds:
+            if lazy:
+                if ns_old is None:
+                    ns_old = dict(ns)
+                    for k_, v_ in list(bindings.items()) + ([("self", self_obj)] if self_obj is not None else []):
+                        ns_old[k_] = snap_deep(v_)
+                vals.append(oc)
+            else:
+                vals.append(snap(eval(oc, ns)))
+        compiled.append((i, cl, code, vals))
     ycompiled = [(i, cl) + _compile(cl) for i, cl in enumerate(contract.yields)]
     args = args or ()
     kwargs = kwargs or {}
@@ -354,7 +445,7 @@ def run_contract(contract, fn, bindings, args=None, kwargs=None, consts=None, se
             ens.update(loc)
             ens.update(out=tuple(out))
             for i, cl in enumerate(contract.exc_ensures.get(d, [])):
-                code, olds = _compile(cl)
+                code, _olds = _compile(cl)
                 try:
                     ok = eval(code, ens)
                 except Exception:
@@ -370,6 +461,7 @@ def run_contract(contract, fn, bindings, args=None, kwargs=None, consts=None, se
     ens.update(result=res, out=tuple(out))
     for i, cl, code, olds in compiled:
         ens["__old"] = olds
+        ens["__oldeval"] = (lambda olds_, nso: (lambda idx, b: eval(olds_[idx], dict(nso, **b))))(olds, ns_old)
         try:
             ok = eval(code, ens)
         except Skip:
